@@ -284,6 +284,9 @@ class SymInt:
 
     __int__ = __index__
 
+    def __format__(self, spec):
+        return ctx().token(self, spec)
+
     def __float__(self):
         raise Inconclusive("float() of a symbolic int")
 
@@ -579,6 +582,8 @@ class SymReal:
                     raise Inconclusive("division by literal zero outside ieee mode")
             elif c is not None:
                 c.assume_defined(b.t != 0, "division")
+            if z3.is_rational_value(a.t) and a.t.numerator_as_long() == 0:
+                return SymReal(rv(0))          # 0 / b with b != 0 assumed
             return SymReal(simp(a.t / b.t))
         ka, kb = _kt(a), _kt(b)
         sa = z3.If(ka == PINF, 1, z3.If(ka == NINF, -1, z3.If(a.t > 0, 1, z3.If(a.t < 0, -1, 0))))
@@ -744,6 +749,8 @@ class SymReal:
         return self
 
     def __float__(self):
+        if has_ctx() and ctx().printing:
+            return ctx().token_float(self)
         raise Inconclusive("float() of a symbolic real (the code needs a concrete number)")
 
     def __int__(self):
@@ -852,7 +859,10 @@ def _log_struct(c, base, t):
     if z3.is_rational_value(t):
         f = float(t.numerator_as_long()) / float(t.denominator_as_long())
         if f > 0:
-            return rv(math.log10(f) if base == 10 else math.log(f))
+            r = rv(math.log10(f) if base == 10 else math.log(f))
+            if base == 10:
+                c.log_const_inverse[r.get_id()] = (r, t)     # 10**log10(const) gives the constant back exactly
+            return r
     if z3.is_app(t) and c.log_product_rule:
         k = t.decl().kind()
         if k == z3.Z3_OP_MUL:
@@ -916,12 +926,27 @@ def s_pow10(x):
     hit = c.fn_cache.get(key)
     if hit is not None:
         return hit[1]
-    # 10**log10(a) == a
+    # 10**log10(a) == a, closed under sums: 10**(log10 a + log10 b) = a*b
     res = None
-    for (base, t, v) in c.log_atoms:
-        if base == 10 and v.eq(x.t):
-            res = SymReal(t)
-            break
+    if x.k is None:
+        parts = x.t.children() if (z3.is_app(x.t) and x.t.decl().kind() == z3.Z3_OP_ADD) else [x.t]
+        prod = None
+        for p in parts:
+            arg = None
+            for (base, t, v) in c.log_atoms:
+                if base == 10 and v.eq(p):
+                    arg = t
+                    break
+            if arg is None:
+                hit = c.log_const_inverse.get(p.get_id())
+                if hit is not None:
+                    arg = hit[1]
+            if arg is None:
+                prod = None
+                break
+            prod = arg if prod is None else prod * arg
+        if prod is not None:
+            res = SymReal(simp(prod))
     if res is None:
         p = z3.FreshReal('pow10')
         c.add_def_rel(p, p > 0, 'pow10', [x.t])
@@ -1093,6 +1118,8 @@ class Context:
         self.defs = []         # (var, defining formula, tag, deps) : cut points and function contracts
         self.defined = []      # definedness assumptions (den != 0, log arg > 0)
         self.fn_cache = {}
+        self.log_const_inverse = {}
+        self._tv = {}
         self.facts = []
         self.log_atoms = []
         self.pow10_atoms = []
@@ -1103,7 +1130,7 @@ class Context:
         self.log_product_rule = explorer.opts.get('log_product_rule', True)
         self.kind_mode = explorer.opts.get('kind_mode', 'term')
         self.printing = False
-        self.tokens = {}
+        self.tokens = []
         self.notes = []
         self._solver = None
         self._nadded = 0
@@ -1132,7 +1159,7 @@ class Context:
             s.add(f)
         self._nfacts = len(self.facts)
         t0 = time.time()
-        r = s.check(extra)
+        r = _checked(s, self.ex.feas_timeout_ms, extra)
         self.ex.stats.solver_time += time.time() - t0
         self.ex.stats.feas_checks += 1
         return r != z3.unsat
@@ -1270,11 +1297,32 @@ class Context:
             return SymBool(v)
         return value
 
-    # -- printing of symbolic numbers (injective sentinel tokens)
+    # -- printing of symbolic numbers: injective sentinel floats (1000+id)*1e197, which survive
+    #    %e / %f / format() with >= 3 decimals and parse back exactly
+    def token_float(self, value):
+        for i, v in enumerate(self.tokens):
+            if v is value:
+                return (1000 + i) * 1e197
+        self.tokens.append(value)
+        if len(self.tokens) > 8000:
+            raise Inconclusive("too many printed symbolic numbers")
+        return (1000 + len(self.tokens) - 1) * 1e197
+
     def token(self, value, spec):
-        key = '⟦%d⟧' % len(self.tokens)
-        self.tokens[key] = (value, spec)
-        return key
+        return format(self.token_float(value), spec) if spec else repr(self.token_float(value))
+
+    def decode(self, number):
+        """Inverse of token_float for a parsed number (None if it is not a sentinel)."""
+        try:
+            f = float(number)
+        except (TypeError, ValueError):
+            return None
+        if not (f >= 0.99e200 and f < 1e201):
+            return None
+        i = int(round(f / 1e197)) - 1000
+        if 0 <= i < len(self.tokens) and abs(f / 1e197 - (1000 + i)) < 1e-6:
+            return self.tokens[i]
+        return None
 
     # -- instantiated facts about the uninterpreted transcendental atoms
     def transcendental_facts(self):
@@ -1286,30 +1334,46 @@ class Context:
             [d[0] for d in self.defined] + self.transcendental_facts()
 
     def relevant(self, goal_terms, with_defs=True):
-        """pre + definedness + those pc conjuncts / definitions in the goal's cone of influence."""
+        """pre + definedness + those pc conjuncts / definitions in the goal's cone of influence.
+
+        Cone: variables of the goal, closed under definitions; path-condition conjuncts that mention a
+        cone variable are taken, and the definitions of *their* variables as well (one round)."""
         cone = {}
         for g in goal_terms:
             term_vars(g, cone)
-        defvars = []
-        for d in self.defs:
-            defvars.append((d, term_vars(d[1])))
-        changed = True
+        tv = self._tv
+
+        def cached_vars(t):
+            i = t.get_id()
+            hit = tv.get(i)
+            if hit is None:
+                hit = (t, term_vars(t))
+                tv[i] = hit
+            return hit[1]
+        defvars = [(d, cached_vars(d[1])) for d in self.defs]
         used = set()
-        while changed:
-            changed = False
-            for idx, (d, vs) in enumerate(defvars):
-                if idx in used:
-                    continue
-                if d[0].get_id() in cone:
-                    used.add(idx)
-                    cone.update(vs)
-                    changed = True
+
+        def close():
+            changed = True
+            while changed:
+                changed = False
+                for idx, (d, vs) in enumerate(defvars):
+                    if idx not in used and d[0].get_id() in cone:
+                        used.add(idx)
+                        cone.update(vs)
+                        changed = True
+        close()
         out = list(self.pre)
+        extra = {}
         for f in self.pc:
-            if any(i in cone for i in term_vars(f)):
+            vs = cached_vars(f)
+            if any(i in cone for i in vs):
                 out.append(f)
+                extra.update(vs)
+        cone.update(extra)
+        close()
         for (cnd, _w) in self.defined:
-            if any(i in cone for i in term_vars(cnd)):
+            if any(i in cone for i in cached_vars(cnd)):
                 out.append(cnd)
         if with_defs:
             out += [defvars[i][0][1] for i in sorted(used)]
@@ -1360,6 +1424,20 @@ class Context:
         return r, m
 
 
+def _checked(solver, timeout_ms, *assumptions):
+    """solver.check() with a watchdog: z3's own timeout is not always honoured inside nlsat."""
+    import threading
+    timer = threading.Timer(timeout_ms / 1000.0 + 3.0, solver.ctx.interrupt)
+    timer.daemon = True
+    timer.start()
+    try:
+        return solver.check(*assumptions)
+    except z3.Z3Exception:
+        return z3.unknown
+    finally:
+        timer.cancel()
+
+
 class Explorer:
     def __init__(self, feas_timeout_ms=2000, query_timeout_ms=60000, max_paths=200000, max_depth=4000,
                  **opts):
@@ -1384,7 +1462,7 @@ class Explorer:
             s = z3.Solver()
         s.set('timeout', int(timeout_ms))
         s.add(formulas)
-        r = s.check()
+        r = _checked(s, timeout_ms)
         dt = time.time() - t0
         self.stats.solver_time += dt
         if r == z3.unsat:
@@ -1398,7 +1476,7 @@ class Explorer:
                 s2 = z3.Tactic('qfnra-nlsat').solver()
                 s2.set('timeout', int(timeout_ms))
                 s2.add(formulas)
-                r2 = s2.check()
+                r2 = _checked(s2, timeout_ms)
                 dt2 = time.time() - t1
                 self.stats.solver_time += dt2
                 dt += dt2
